@@ -37,6 +37,10 @@ CLAIMED = {
             "Static decision of the dispatch clauses of C22 (DESIGN section 3): every step status has a case; each handler-invoking case passes the tabled cause and id list on the advanced state and is "
             "followed on every path by reinitialize(lowestModified, shouldTerminate) taken from that call's results; handler/reporter arrays are only paired with the id/index arrays of their own family and "
             "under the right cause; a candidate is listed only under a masked sign change of the same event. Window width, bracketing, ordering of crossings and exact handler times are numerical/time logic and not decided."),
+    "C46": ("INVENTORY: whole-library enumeration of static/thread-storage variables from the AST, classified immutable / never-written / thread-local accumulator / reviewed (with re-checked side conditions)",
+            "Static decision of C46's own mechanism, 'absence of shared mutable static state across System/Integrator instances' (DESIGN section 3): every static-storage variable in the libraries and repository headers is "
+            "immutable by type, never written by any analysed function, a thread-local accumulator zeroed by its protocol, or in the reviewed table; a new or newly written static, a registry class gaining state, "
+            "or a broken side condition is reported. Quick tier: the anchored directories; thorough: all 262 library units and every repository header. Bit-identity of actual runs is not decided."),
 }
 NA = {
  "C01": "numerical identity between O(n) recursions; no clause is visible in the shape of the code",
